@@ -9,7 +9,7 @@ From Coquelicot Require Import Coquelicot.
 From Interval Require Import Tactic.
 From OV Require Import Base.Panic Base.Arith Model.Vector Model.Matrix Model.Solve Model.Newton Inst.QcInst
   Proofs.Matrix Proofs.SolveBase Proofs.Solve Proofs.NewtonLoop Proofs.Newton Proofs.NewtonJac Proofs.NewtonSys
-  Proofs.NewtonReal Proofs.Newton2Sys Proofs.Newton2Real Proofs.Newton2Scalar Proofs.Newton2Mono.
+  Proofs.NewtonReal Proofs.Newton2Sys Proofs.Newton2Real Proofs.Newton2Scalar Proofs.Newton2Mono Proofs.Newton2Diag.
 Import ListNotations.
 
 (* ---------------- linear systems ---------------- *)
@@ -112,4 +112,35 @@ Lemma cube2_pass :
 Proof.
   assert (Hc : cdq cube2 (5 / 4) (1 / 4) = 19 / 4) by (unfold cdq, cube2; field).
   apply scalar_pass_R; [lra|rewrite Hc; lra].
+Qed.
+
+(* ---------------- a decoupled 2 x 2 nonlinear system: (x, y) |-> (x^3 - 2, y^3 - 2) ---------------- *)
+Definition F2w (p : list R) : res (list R) :=
+  let* x := rd p 0 in let* y := rd p 1 in Ok [cube2 x; cube2 y].
+Definition J2w (p : list R) : res (matrix AR) :=
+  let* x := rd p 0 in let* y := rd p 1 in Ok (@mkM AR [cube2' x; 0; 0; cube2' y] 2 2).
+
+Lemma F2w_spec x : length x = 2%nat ->
+  exists v, F2w x = Ok v /\ length v = 2%nat /\
+    forall i, (i < 2)%nat -> nth i v 0 = (fun _ : nat => cube2) i (nth i x 0).
+Proof.
+  destruct x as [|u [|w [|? ?]]]; try discriminate. intros _. cbn. eexists. split; [reflexivity|].
+  split; [reflexivity|]. intros [|[|i]] Hi; try lia; reflexivity.
+Qed.
+
+Lemma J2w_spec x : length x = 2%nat ->
+  exists J, J2w x = Ok J /\ wf J /\ rows J = 2%nat /\ cols J = 2%nat /\
+    forall i j, (i < 2)%nat -> (j < 2)%nat ->
+      ent J i j = if (i =? j)%nat then (fun _ : nat => cube2') i (nth i x 0) else 0.
+Proof.
+  destruct x as [|u [|w [|? ?]]]; try discriminate. intros _. cbn. eexists. split; [reflexivity|].
+  split; [reflexivity|]. split; [reflexivity|]. split; [reflexivity|].
+  intros [|[|i]] [|[|j]] Hi Hj; try lia; reflexivity.
+Qed.
+
+Lemma ball2w : length [5 / 4; 13 / 10] = 2%nat /\
+  forall i, (i < 2)%nat -> Rabs (nth i [5 / 4; 13 / 10] 0 - (fun _ : nat => rc) i) <= 1 / 10.
+Proof.
+  pose proof rc_bounds as Hrc. split; [reflexivity|].
+  intros [|[|i]] Hi; try lia; cbn; unfold Rabs; destruct (Rcase_abs _); lra.
 Qed.
